@@ -189,6 +189,47 @@ def part_grader(ctx):
                      nontrivial_key=(repr(ans), repr(pos), repr(inp), eo, kind) if kind != 'same' else None, kind='grader:%s:%s' % (kind, 'ok' if want_ok else 'wrong'))
 
 
+def part_sampled_functions(ctx):
+    """the author's and the student's sums are evaluated on the SAME sample at EVERY sample, also when the sample consists only of randomly
+    drawn functions (RandomFunction / SpecificFunctions user functions) or of numbered / dependent variables: every sum-preserving rewrite of
+    the author's own answer must be accepted, a perturbed one refused"""
+    from mitxgraders import SumGrader, RandomFunction, SpecificFunctions, RealInterval, DependentSampler
+    import numpy as np
+    rng = ctx.rng
+    setups = [
+        ('random-function-only', dict(user_functions={'f': RandomFunction()}), 'f(n)', {}),
+        ('random-function-2', dict(user_functions={'f': RandomFunction(center=2, amplitude=1), 'g': RandomFunction()}), 'f(n)*g(2) + n', {}),
+        ('specific-functions', dict(user_functions={'f': SpecificFunctions([np.sin, np.cos, np.tan, np.exp])}), 'f(n/10)', {}),
+        ('random-function+variable', dict(user_functions={'f': RandomFunction()}, variables=['x']), 'f(n) + x', {}),
+        ('numbered-variable-only', dict(numbered_vars=['a'], sample_from={'a': RealInterval([1, 5])}), 'a_{1}*n + a_{2}', {}),
+        ('dependent-only', dict(variables=['x', 'y'], sample_from={'x': RealInterval([1, 5]), 'y': DependentSampler(depends=['x'], formula='x^2')}), 'y*n', {}),
+    ]
+    for it in range(ctx.scale(24, 240)):
+        name, kw, txt, _ = setups[it % len(setups)]
+        lo, hi = sorted([rng.randint(-6, 6), rng.randint(-6, 6)])
+        if name == 'specific-functions':
+            lo, hi = max(lo, -3), min(max(hi, lo), 3)
+        samples = rng.choice([2, 3, 5])
+        ans = {'lower': str(lo), 'upper': str(hi), 'summand': txt, 'summation_variable': 'n'}
+        try:
+            g = SumGrader(answers=ans, samples=samples, tolerance=1e-9, **kw)
+        except Exception as e:
+            ctx.count('sampled:config_rejected'); continue
+        for kind, fields, equal in variants(rng, lo, hi, txt, 'n'):
+            if equal is None and kind not in ('perturbed', 'scaled'):
+                continue
+            k_, v = D.run_impl(lambda: g(None, fields))
+            case = {'part': 'sampled-functions', 'setup': name, 'answers': ans, 'student': fields, 'samples': samples, 'variant': kind}
+            if k_ == 'err':
+                ctx.violation('a well-formed summation raised %s' % (v[1],), case, impl=v)
+            elif equal is True and v['ok'] is not True:
+                ctx.violation('a sum-preserving rewrite of the author\'s own answer is not accepted (author and student not evaluated on the same sample?)', case, impl=GG.canon_result(v))
+            elif equal is None and v['ok'] is True and hi >= lo and kind == 'perturbed':
+                ctx.violation('a sum that differs from the author\'s by the number of terms is accepted', case, impl=GG.canon_result(v))
+            ctx.case({'setup': name, 'student': fields, 'variant': kind, 'ok': v.get('ok') if k_ == 'out' else v[1]},
+                     nontrivial_key=(name, repr(fields), samples) if kind != 'same' else None, kind='sampled:' + name)
+
+
 ERR_INPUTS = [
     (['1.5', '3', 'n', 'n'], 'SummationError'), (['1', '7/2', 'n', 'n'], 'SummationError'), (['i', '3', 'n', 'n'], 'SummationError'), (['1', '2+i', 'n', 'n'], 'SummationError'),
     (['infty', 'infty', '2^(0-n)', 'n'], 'SummationError'), (['-infty', '-infty', 'n', 'n'], 'SummationError'),
@@ -267,6 +308,7 @@ def part_errors(ctx):
 def run(ctx):
     part_perform(ctx)
     part_grader(ctx)
+    part_sampled_functions(ctx)
     part_errors(ctx)
 
 
